@@ -17,6 +17,8 @@ pub enum Prep {
     Pushed,
     /// n + k bits with ones above, then resize(n): the storage above len has held ones
     Shrunk,
+    /// n + k bits with ones above, then truncate(n) (a default trait method a type may override)
+    Truncated,
     /// n + 3 bits with ones above, then pop three times
     Popped,
     /// fresh, then reserve(200)
@@ -31,11 +33,12 @@ pub enum Prep {
     Summed,
 }
 
-pub const PREPS: [Prep; 10] = [
+pub const PREPS: [Prep; 11] = [
     Prep::Fresh,
     Prep::Spare,
     Prep::Pushed,
     Prep::Shrunk,
+    Prep::Truncated,
     Prep::Popped,
     Prep::Reserved,
     Prep::Heap,
@@ -52,6 +55,7 @@ impl Prep {
             Prep::Pushed => "pushed".into(),
             Prep::Shrunk => "shrunk".into(),
             Prep::Popped => "popped".into(),
+            Prep::Truncated => "truncated".into(),
             Prep::Reserved => "reserved".into(),
             Prep::Heap => "heap".into(),
             Prep::Conv(k) => format!("conv:{}", k.name()),
@@ -96,7 +100,7 @@ fn try_make(kind: Kind, bits: &[u8], prep: Prep) -> Option<AnyBv> {
             for b in bits { v.push(bit(*b)); }
             v.into_any()
         })),
-        Prep::Shrunk => {
+        Prep::Shrunk | Prep::Truncated => {
             let k = if n % 64 < 60 { 70 - n % 7 } else { 3 };
             let k = k.min(cap - n);
             if k == 0 {
@@ -104,9 +108,10 @@ fn try_make(kind: Kind, bits: &[u8], prep: Prep) -> Option<AnyBv> {
             }
             let mut long = bits.to_vec();
             long.extend(std::iter::repeat(1).take(k));
+            let by_truncate = prep == Prep::Truncated;
             Some(with_kind!(kind, T => {
                 let mut v = build::<T>(&long);
-                v.resize(n, Bit::Zero);
+                if by_truncate { v.truncate(n); } else { v.resize(n, Bit::Zero); }
                 v.into_any()
             }))
         }
